@@ -4,6 +4,7 @@ import (
 	"bytes"
 	"fmt"
 	"io"
+	"strings"
 
 	simdjson "github.com/minio/simdjson-go"
 
@@ -495,6 +496,19 @@ func runC16(w *W) {
 		k++
 		if w.mine(k) {
 			w.c16Judge(k, "corpus:"+d.Name, d.Data, false)
+		}
+	}
+	// the last value is a long escape-free string (the end-of-message padding paths of the string parser)
+	for _, n := range []int{100, 380, 384, 385, 386, 400, 447, 448, 449, 460, 511, 512, 513, 600, 2000, 9000} {
+		for gap := 0; gap <= 66; gap += 11 {
+			k++
+			if !w.mine(k) {
+				continue
+			}
+			s := strings.Repeat("p", n)
+			w.c16Judge(k, "long-tail-string", []byte(`{"a":1,"tail":"`+s+`"`+strings.Repeat(" ", gap)+`}`), false)
+			w.c16Judge(k, "long-tail-string", []byte(`["x","`+s+`"`+strings.Repeat(" ", gap)+`]`), false)
+			w.c16Judge(k, "long-tail-string-nd", []byte(`{"a":1}`+"\n"+`["`+s+`"]`+"\n"), true)
 		}
 	}
 	for i := 0; i < ns; i++ {
